@@ -195,3 +195,23 @@ def conv_key(F, which):
     sfx = _T2_SFX if which == "t2" else _T1_SFX
     ks = [k for k in F.insts if k.endswith(sfx) and k.startswith("multiboot2::tag_type::")]
     return ks[0] if len(ks) == 1 else "multiboot2::tag_type::primitive_conversion_impls::" + sfx
+
+
+def flag_constants(ctx, F, table, rule, what):
+    """the named bit constants of the flag types (associated constants generated by `bitflags!`, evaluated by the compiler) equal the
+    specified bit values: a flag accessor's answer is read through these names"""
+    n = 0
+    for (ty, name), want in sorted(table.items()):
+        ks = [k for k in F.consts if k.endswith("::%s::%s" % (ty, name)) and k.split("::", 1)[0] == "multiboot2"]
+        if len(ks) != 1:
+            ctx.fail("ANCHOR", "%s::%s" % (ty, name), "the documented flag constant %s::%s exists" % (ty, name), "", "%d found" % len(ks))
+            continue
+        c = F.consts[ks[0]]
+        v = c.get("v")
+        if v is None:
+            fs = c.get("fields") or []
+            v = fs[0].get("v") if fs else None
+        n += 1
+        ctx.check(v == want, rule, "%s::%s" % (ty, name), "%s::%s == %#x (%s)" % (ty, name, want, what), c.get("span", ""),
+                  how="compiler-evaluated %s" % c.get("val_s", "")[-40:], why="evaluates to %s" % v, nontrivial=False)
+    return n
